@@ -27,7 +27,7 @@ def run_profile(ctx, binary, profile, seed, nprog, out):
 
 def run(ctx):
     tier, seed, work = ctx["tier"], ctx["seed"], ctx["work"]
-    nprog = 150 if tier == "quick" else 5000
+    nprog = 150 if tier == "quick" else 60000
     out = f"{work}/run0"
     os.makedirs(out, exist_ok=True)
     violations = []
